@@ -102,6 +102,10 @@ fn onesample_kolmogorov_twosided_pvalue(d: f64, n: f64) -> f64 {
     // https://en.wikipedia.org/wiki/Kolmogorov%E2%80%93Smirnov_test#Kolmogorov_distribution
     // 1-2\sum _{k=1}^{\infty }(-1)^{k-1}e^{-2k^{2}x^{2}}
     let x = d * n.sqrt();
+    if x == 0.0 {
+        // the series below does not converge at 0; the Kolmogorov survival function there is 1
+        return 1.0;
+    }
 
     let mut sum = 0.0;
     let mut k: f64 = 1.0;
